@@ -52,7 +52,10 @@ class RBFKernelGradGrad(RBFKernel):
     """
 
     def forward(self, x1, x2, diag=False, **params):
-        batch_shape = x1.shape[:-2]
+        # the kernel's own batch shape may exceed that of the inputs (e.g. batched hyper-parameters, shared inputs)
+        batch_shape = torch.broadcast_shapes(x1.shape[:-2], x2.shape[:-2], self.batch_shape)
+        x1 = x1.expand(*batch_shape, *x1.shape[-2:])
+        x2 = x2.expand(*batch_shape, *x2.shape[-2:])
         n_batch_dims = len(batch_shape)
         n1, d = x1.shape[-2:]
         n2 = x2.shape[-2]
